@@ -100,6 +100,12 @@ impl ConnIdCounter {
 
     #[inline(always)]
     pub fn add(&mut self, left_id: u16, right_id: u16, num: usize) {
+        #[cfg(feature = "verif")]
+        crate::verif::record(crate::verif::Event::CounterAdd {
+            left_id,
+            right_id,
+            num,
+        });
         self.lid_count[usize::from(left_id)] += num;
         self.rid_count[usize::from(right_id)] += num;
     }
